@@ -1045,9 +1045,17 @@ def rule_r18(facts, col, rule_id="C08.R18"):
         clamps = []
         for bb, t in body.calls():
             qs = Body.callee_qs(t)
-            if not any(q in MIN_CALLS for q in qs) or len(t["args"]) != 2:
+            if any(q in MIN_CALLS for q in qs) and len(t["args"]) == 2:
+                ops = [body.operand_expr(a) for a in t["args"]]
+            elif any(q in facts.by_q for q in qs) and not t["dst"]["p"]:
+                # a small pure helper that is the clamp (`clamp_pending(self.owed, o.len())` = `owed.min(len)`)
+                ce = body.call_expr(bb, t)
+                ex = peel(expand_local_call(facts, ce), through_try=False)
+                if ex is None or ex is ce or not (ex.k == "call" and (ex.q in MIN_CALLS or ex.rq in MIN_CALLS) and len(ex.args or []) == 2):
+                    continue
+                ops = list(ex.args)
+            else:
                 continue
-            ops = [body.operand_expr(a) for a in t["args"]]
             for i in (0, 1):
                 f = field_of(ops[i])
                 w = c09.len_of_window(ops[1 - i])
